@@ -1059,6 +1059,9 @@ class TorConfig:
                             initial = []
                         else:
                             initial = [default]
+                elif isinstance(v, list):
+                    # Tor reported several values for this option
+                    initial = [self.parsers[rn].parse(x) for x in v]
                 else:
                     initial = [self.parsers[rn].parse(v)]
                 self.config[rn] = _ListWrapper(
